@@ -8,6 +8,7 @@ import (
 	"io"
 	"net"
 	"strings"
+	"sync"
 	"time"
 
 	"github.com/gammazero/nexus/v3/stdlog"
@@ -34,6 +35,10 @@ type rawSocketPeer struct {
 	ctxSender    context.Context
 
 	writerDone chan struct{}
+
+	// Serializes the frames written to conn by sendHandler and the PONG
+	// replies written by recvHandler.
+	wrMutex sync.Mutex
 
 	log stdlog.StdLog
 }
@@ -224,13 +229,7 @@ sendLoop:
 			}
 			lenBytes := intToBytes(len(b))
 			header := []byte{0x0, lenBytes[0], lenBytes[1], lenBytes[2]}
-			if _, err = rs.conn.Write(header); err != nil {
-				if !wamp.IsGoodbyeAck(msg) {
-					rs.log.Println("Error writing header:", err)
-				}
-				continue sendLoop
-			}
-			if _, err = rs.conn.Write(b); err != nil {
+			if err = rs.writeFrame(header, b); err != nil {
 				if !wamp.IsGoodbyeAck(msg) {
 					rs.log.Println("Error writing message:", msg, err)
 				}
@@ -240,6 +239,19 @@ sendLoop:
 			return
 		}
 	}
+}
+
+// writeFrame writes a frame header and its payload to the socket as one unit,
+// so that the frames written by sendHandler and the PONG replies written by
+// recvHandler are never interleaved on the wire.
+func (rs *rawSocketPeer) writeFrame(header, payload []byte) error {
+	rs.wrMutex.Lock()
+	defer rs.wrMutex.Unlock()
+	if _, err := rs.conn.Write(header); err != nil {
+		return err
+	}
+	_, err := rs.conn.Write(payload)
+	return err
 }
 
 // recvHandler pulls messages from the socket and pushes them to the read
@@ -294,13 +306,14 @@ MsgLoop:
 				continue MsgLoop
 			}
 		case 1: // PING
-			header[0] = 0x02
-			if _, err = rs.conn.Write(header[:]); err != nil {
-				rs.log.Println("Error writing header responding to PING:", err)
+			payload := make([]byte, length)
+			if _, err = io.ReadFull(rs.conn, payload); err != nil {
+				rs.log.Println("Error reading PING:", err)
 				_ = rs.conn.Close()
 				return
 			}
-			if _, err = io.CopyN(rs.conn, rs.conn, int64(length)); err != nil {
+			header[0] = 0x02
+			if err = rs.writeFrame(header[:], payload); err != nil {
 				rs.log.Println("Error responding to PING:", err)
 				_ = rs.conn.Close()
 				return
